@@ -6,6 +6,7 @@ import YawVerif.Drv.Common
 import YawVerif.Model.CorrFuncGlue
 import YawVerif.Generated.Nz
 import YawVerif.Model.HistJk
+import YawVerif.Model.Binning
 
 open Yaw Yaw.Proto Yaw.Drv
 
@@ -133,6 +134,18 @@ def hHistJk : R String := do
       out := out.push (fmtRat (Impl.histJk N (fun i => c.getD (i * B + b) 0) k))
   pure (join out)
 
+/-- `bin closedRight B edges(B+1) n (z w)*n` → `trees <B sums> hist <B sums>` of the implementation model -/
+def hBin : R String := do
+  let cr ← Proto.bool
+  let B ← nat
+  let edges ← rats (B + 1)
+  let n ← nat
+  let flat ← rats (2 * n)
+  let objs := (List.range n).map fun i => (flat.getD (2 * i) 0, flat.getD (2 * i + 1) 0)
+  let t := Bin.binSums (Bin.binIndex cr (vec edges) B) B objs
+  let h := Bin.binSums (Bin.histBin cr (vec edges) B) B objs
+  pure (join ((#["trees"] ++ (t.map fmtRat).toArray ++ #["hist"] ++ (h.map fmtRat).toArray)))
+
 def handler (kind : String) : R String :=
   match kind with
   | "cf" => hCf
@@ -141,6 +154,7 @@ def handler (kind : String) : R String :=
   | "nz" => hNz
   | "histnorm" => hHistNorm
   | "histjk" => hHistJk
+  | "bin" => hBin
   | _ => throw s!"unknown kind {kind}"
 
 end Yaw.GenDrv
